@@ -23,7 +23,7 @@ PENDING = {}
 
 PROPS['C01'] = dict(
     id='C01',
-    modules=['CollectionModel.Props.C01'],
+    modules=['CollectionModel.Props.C01', 'CollectionModel.Tie.Fns'],
     key=seq_key, nontrivial=seq_nontrivial,
     rule="cases = single List/Array calls (pre-state, operation, observation) taken from exhaustive boundary "
          "enumeration at small sizes and from random histories; a case is non-trivial when it is not a constructor "
@@ -44,7 +44,7 @@ def stack_key(l):
 
 PROPS['C13'] = dict(
     id='C13',
-    modules=['CollectionModel.Props.C13'],
+    modules=['CollectionModel.Props.C13', 'CollectionModel.Tie.Facts'],
     key=stack_key, nontrivial=lambda l: l.get('op') not in ('getSize', 'isEmpty', 'getCapacity'),
     rule="cases = single Stack calls (pre-state incl. capacity, operation, observation) from all mutator histories up to "
          "depth 5 (quick) / 8 (thorough) for capacities 1..4, constructors from 0..2*default+1 initial values pushed past "
@@ -66,7 +66,7 @@ def iter_key(l):
 
 PROPS['C17'] = dict(
     id='C17',
-    modules=['CollectionModel.Props.C17'],
+    modules=['CollectionModel.Props.C17', 'CollectionModel.Tie.Fns'],
     key=iter_key, nontrivial=lambda l: True,
     rule="cases = single iterator moves (snapshot, slot before, move, slot after, result) on iterators obtained from all "
          "seven collection kinds: every move from every (size 0..4, slot) state, all move sequences up to length 2 (quick) / "
@@ -196,7 +196,7 @@ PROPS['C07'] = dict(
 )
 
 PROPS['C08'] = dict(
-    id='C08', modules=['CollectionModel.Props.C08'], key=coll_key, nontrivial=lambda l: True, rule=COLL_RULE,
+    id='C08', modules=['CollectionModel.Props.C08', 'CollectionModel.Tie.Facts'], key=coll_key, nontrivial=lambda l: True, rule=COLL_RULE,
     exhaustive_subspaces="as C07",
     level_text="Lean 4 theorems on the universe U: C08_agrees_with_rank (CompareValues true exactly when RankValues Equal), C08_structural (true exactly when the canonical images coincide: rebuilt copies equal, any single changed part unequal), C08_refl / C08_symm / C08_trans, C08_deep_panics (a value nested deeper than the limit ends in the depth-limit panic, never a hang, for every maximum), C08_collator_reusable (calls leave the collator as found, also after a panic). Negative: C08_counterexample_complex (recorded finding). Tied to /repo by the differential run incl. self-containing collections (cycle length 1..3, alone or among siblings) and call sequences on one collator.",
     level_note="PARTIAL as C07 (Go maps by correspondence only, complex recorded). Process-level crashes (stack exhaustion) are outside the model; the run executes the cyclic cases for real.",
@@ -208,7 +208,7 @@ def cdcn_key(l):
     return (l.get('gen'), p.get('out'), p.get('pc'), p.get('tt'), min(len(toks), 12), tuple(sorted(set(toks)))[:8])
 
 PROPS['C12'] = dict(
-    id='C12', modules=['CollectionModel.Props.C12'], key=cdcn_key, nontrivial=lambda l: len(l.get('src', [])) > 0,
+    id='C12', modules=['CollectionModel.Props.C12', 'CollectionModel.Tie.Facts'], key=cdcn_key, nontrivial=lambda l: len(l.get('src', [])) > 0,
     timeout=dict(quick=900, thorough=3000),
     rule="cases = one ParseSource call on one source string, observed as: the real scanner's token stream (kind, length, line, "
          "column per token), strconv's verdict on every literal token, the outcome (value / located diagnostic with token kind, "
@@ -236,7 +236,7 @@ PROPS['C11'] = dict(
 )
 
 PROPS['C10'] = dict(
-    id='C10', modules=['CollectionModel.Props.C10'],
+    id='C10', modules=['CollectionModel.Props.C10', 'CollectionModel.Tie.Facts'],
     key=lambda l: (l.get('k'), l.get('gen'), l.get('fmt'), (l.get('parse') or {}).get('out'), l.get('canon'), l.get('depth'), l.get('shape'), l.get('status'),
                    min(len(l.get('leaves') or []), 12), min(len(l.get('text') or []) // 40, 10), tuple(sorted(set(x[0].get('t') for x in (l.get('leaves') or []))))),
     nontrivial=lambda l: True, timeout=dict(quick=900, thorough=3000),
@@ -278,7 +278,7 @@ PROPS['C04'] = dict(
 )
 
 PROPS['C05'] = dict(
-    id='C05', modules=['CollectionModel.Props.C05'], key=q_key, nontrivial=lambda l: True, rule=Q_RULE + "; plus the three constructor entry points (MakeFromArray, MakeFromSequence, a parsed Queue literal) for every N in 0..4*capacity+1 under a watchdog",
+    id='C05', modules=['CollectionModel.Props.C05', 'CollectionModel.Tie.Facts'], key=q_key, nontrivial=lambda l: True, rule=Q_RULE + "; plus the three constructor entry points (MakeFromArray, MakeFromSequence, a parsed Queue literal) for every N in 0..4*capacity+1 under a watchdog",
     timeout=dict(quick=900, thorough=6000),
     exhaustive_subspaces="constructors: every N in 0..65 through all three entry points; schedules as C04",
     level_text="Lean 4 theorems (any number of threads, every reachable state): C05_recv_enabled_iff / C05_send_enabled_iff (a blocked call can proceed exactly when the queue's state permits), C05_no_mutual_block (a consumer blocked on empty and a producer blocked on full never coexist), C05_recv_after_send / C05_recv_after_close / C05_send_after_recv (the step that changes the state enables the blocked call: no lost wake-up), C05_ctor_returns (constructing from N values never blocks once capacity >= N, for every N). Negative: C05_counterexample_removeall_breaks_accounting. Termination of every well-formed producer/consumer/closer program is established by exploration of all schedules of the small programs (DFS by replay on the real code), NOT by a Lean proof for all thread counts.",
@@ -301,7 +301,7 @@ PROPS['C06'] = dict(
 )
 
 PROPS['C20'] = dict(
-    id='C20', modules=['CollectionModel.Props.C20'],
+    id='C20', modules=['CollectionModel.Props.C20', 'CollectionModel.Tie.Facade'],
     key=lambda l: (l.get('ctor'), l.get('form'), l.get('ty'), size_class(l.get('n', 0)), l.get('npos'), (l.get('mod') or {}).get('out')),
     nontrivial=lambda l: l.get('form') != 'none',
     rule="cases = one call of a module-level constructor next to the class-level constructor (and, for source forms, "
@@ -364,4 +364,37 @@ PROPS['C18'] = dict(
                "retarget; what each call computes is reused from the value-level models of C01/C02/C03/C14. Integer elements only. "
                "Association objects are modelled by value (the catalog's copies made by fix 1dc6409).",
     assumptions=["element objects that are themselves mutable reference types (nested collections as elements) are shared by design of Go interfaces and not claimed"],
+)
+
+PROPS['C19'] = dict(
+    id='C19', modules=['CollectionModel.Props.C19', 'CollectionModel.Tie.Sharing'], stress='C19stress',
+    key=lambda l: (l.get('k'), tuple(l.get('families', [])), l.get('g'), l.get('type', 0) % 4, l.get('same')),
+    nontrivial=lambda l: l.get('k') in ('indep', 'registry'),
+    timeout=dict(quick=1800, thorough=7200),
+    rule="cases = (a) first use of 48 fresh element types: 16 goroutines released together call all eleven generic class "
+         "accessors (Array, List, Set, Stack, Queue, Catalog, Map, Association, Collator, Sorter, Iterator) for the same new "
+         "type, the classes they got (and a later call) are compared by identity; (b) every pair of the operation families "
+         "build, mutate, search, sort (collection's own), sort (default sorter), rank/compare (composite values, own collator), "
+         "format (String() of collections of one type), format (own notation), parse, iterate, set algebra, each goroutine on "
+         "instances it created itself, in 2, 4, 8 and 16 goroutines, primitive and composite ([]int) element types, run "
+         "sequentially first and then concurrently, 3 (quick) / 25 (thorough) repetitions, results compared; (c) instances related "
+         "by a class function (the set returned by And and its first operand) used from two goroutines. Everything runs in a binary "
+         "built with the race detector: every report is a violation. distinct = distinct (kind, family pair, goroutines, outcome)",
+    exhaustive_subspaces="all 66 unordered pairs of the 11 operation families x {2,4,8,16} goroutines; all 11 accessors x 48 fresh types",
+    level_text="Lean 4 theorems, for any number of goroutines, actions and every schedule: C19_commute (two well-behaved actions "
+               "with no write/access conflict commute), C19_schedule_independent (every interleaving of goroutines whose actions "
+               "are pairwise independent across goroutines ends in the memory of running them one after another; results are "
+               "locations too), C19_owned_independent (actions confined to the locations their own instance owns plus read-only "
+               "shared locations are independent), C19_registry_stable / C19_registry_one_class (an accessor that looks up and "
+               "inserts in one critical section returns one class per type in every schedule). The hypothesis 'no shared location "
+               "is written' is discharged for THIS code by Tie.sharing_safe / registries_guarded / sharing_covers: `decide` over the "
+               "sharing table that /verif/extract regenerates from the Go source on every run (package-level variables, objects "
+               "held by class objects and the methods invoked through them, agents of an operand handed to a new instance, with "
+               "a transitive may-write summary of every method).",
+    level_note="PARTIAL: the Go memory model is replaced by footprint disjointness; the extractor's may-write and lock analysis "
+               "is syntactic (assignments, inc/dec, index writes, delete/clear/copy, pointer-receiver calls on by-value foreign "
+               "fields, calls through the receiver and name-resolved calls through its fields; Lock before first / Unlock after "
+               "last access). What the table cannot see is left to the race-detector matrix, which only observes the schedules "
+               "that happen to run.",
+    assumptions=["sync.Mutex and the Go runtime are correct", "user-supplied rankers and collators are outside the table"],
 )
